@@ -206,12 +206,13 @@ ADDED12 = {
             " Round 12: MwLock.tla makes the RWMutex explicit (readers, writer, announced writers that keep new readers out) and lets the wrapped handler call back into its own "
             "middleware; TLC checks that it REFINES Middleware.tla (PROPERTY MW!Spec), keeps no lock across validation / rendering / w.Header() / the handler, cannot deadlock and, "
             "under weak fairness, that every started call returns; twins holdAcross (rejected by LockFreeOutside and, without it, by deadlock) and checkThenAct (rejected by the "
-            "refinement). TraceMiddleware checks every recorded call's gate sequence against the lock program of its method (drift report)."),
+            "refinement). TraceMiddleware checks every recorded call's gate sequence against the lock program of its method (drift report). Round 13: every other scheduled request goes through a handler wrapped before the schedule starts."),
     "C09": (" + MwLock.tla (lock-level refinement with SetDebug / Reconfigure called from inside a wrapped handler)", " Round 12: MwLock.tla - DebugMachine carries over to the lock-level model by refinement, also when the calls are made by a wrapped handler; deadlock freedom and termination."),
+    "C03": ("", " Round 13: persistent handlers wrapped right after construction, a traffic-free passthrough phase before every fourth reuse of the long-lived middleware, alternating order of the two debug modes (all serve-based checks)."),
+    "C16": ("", " Round 12: strict subsets of the allowed names padded with 1..16 empty list elements (end, start, between, own lines) in every block. Round 13: in a third of the blocks debug off is reached through SetDebug(true), Reconfigure(nil), Reconfigure(cfg) - SetDebug(false) is never called."),
     "C11": (" + MwLock.tla (no lock held across the wrapped handler, deadlock freedom, termination under fairness)", " Round 12: MwLock.tla model-checked (a handler that calls back into its own middleware is answered); method look-alikes (`options`, `Options`, `OPTION`, `OPTIONSS`, lower-case standard methods, CONNECT, TRACE ...) with preflight / actual / non-CORS header shapes in every block."),
     "C12": ("", " Round 12: in-place edits replace origin-valued fields by an origin nothing allows, and the probe suites offer exactly that origin right after requests from allowed origins."),
     "C13": ("", " Round 12: over-range ports at integer-width boundaries (2^16+1 ... 99999, 10^5, 2^17+80, 2^31-1, 2^32+80, 2^64+80)."),
-    "C16": ("", " Round 12: strict subsets of the allowed names padded with 1..16 empty list elements (end, start, between, own lines) in every block."),
     "C19": ("", " Round 12: the second stage is not run once the first has established a verdict (an iterator that yields too much made it explode)."),
 }
 
